@@ -416,6 +416,11 @@ def c15(ck, tmp):
     for it in range(400 if quick else 10000):
         n, edges = rand_graph(rng)
         ids = ["v%d" % i for i in range(n)] if rng.random() < 0.6 else [str(10 - i) for i in range(n)]
+        if it % 9 == 4:
+            # a node whose id is the empty string: reachable through add_node("") and through an S line with an empty name, which
+            # read_graph accepts; falsy in Python (D23: `if nn:` in biccs)
+            ids[rng.randrange(n)] = ""
+            ck.count("empty-node-id")
         text, ids = graph_text(n, edges, rng, ids)
         run_algos(ck, text, ids, rng, tmp, "random")
     # exhaustive: every simple graph on n labelled nodes (n <= 4 quick, <= 5 thorough), one orientation labelling each
